@@ -838,8 +838,111 @@ def fresh_digests(seed: str, only: str | None = None) -> dict:
     return json.loads(r.stdout.strip().splitlines()[-1])
 
 
+def reuse_cases() -> dict:
+    """Objects a caller may hold on to and use again, one use after the other is complete: the
+    later use must give what the first one gave (same input), or be refused."""
+    seq3 = [(I(f"http://r/s{i % 3}"), I("http://r/p"), L(str(i))) for i in range(5)]
+    seq4 = [(*st, I(f"http://r/g{i % 2}")) for i, st in enumerate(seq3)]
+
+    def plugin(cls):
+        def thunk():
+            from pyjelly.integrations.rdflib.serialize import RDFLibJellySerializer  # noqa: PLC0415
+
+            ser = RDFLibJellySerializer(DR.r_graph(seq3 if cls == "triple" else seq4))
+            outs = []
+            for _ in range(3):
+                out = io.BytesIO()
+                ser.serialize(out)
+                outs.append(out.getvalue())
+            return outs
+        return thunk
+
+    def flow_object(api, flow_name, cls):
+        def thunk():
+            from pyjelly.serialize import flows  # noqa: PLC0415
+
+            fcls = getattr(flows, flow_name)
+            flow = fcls(frame_size=2) if issubclass(fcls, flows.BoundedFrameFlow) else fcls()
+            outs = []
+            for _ in range(3):
+                opts = DR.make_options(cls, PRESET, 250, True, generalized=False, rdf_star=False,
+                                       flow=flow)
+                outs.append((DR.g_write if api == "generic" else DR.r_write)(
+                    seq3 if cls == "triple" else seq4, cls, opts, "stream_frames_gen"))
+                if len(flow):
+                    outs.append(b"rows left in the caller's flow object")
+            return outs
+        return thunk
+
+    def options_object(api, cls):
+        def thunk():
+            opts = DR.make_options(cls, PRESET, 2, True, generalized=False, rdf_star=False)
+            return [(DR.g_write if api == "generic" else DR.r_write)(
+                seq3 if cls == "triple" else seq4, cls, opts, "stream_frames_gen")
+                for _ in range(3)]
+        return thunk
+
+    def sink_object():
+        sink = DR.g_sink(seq3)
+        outs = []
+        for _ in range(3):
+            out = io.BytesIO()
+            sink.serialize(out)
+            outs.append(out.getvalue())
+        return outs
+
+    def graph_object(cls):
+        def thunk():
+            g = DR.r_graph(seq3 if cls == "triple" else seq4)
+            outs = []
+            for _ in range(3):
+                out = io.BytesIO()
+                g.serialize(destination=out, format="jelly")
+                outs.append(out.getvalue())
+            return outs
+        return thunk
+
+    cases = {"generic-sink-object": sink_object}
+    for cls in ("triple", "quad"):
+        cases[f"rdflib-plugin-object-{cls}"] = plugin(cls)
+        cases[f"rdflib-graph-object-{cls}"] = graph_object(cls)
+        for api in ("generic", "rdflib"):
+            cases[f"{api}-options-object-{cls}"] = options_object(api, cls)
+            for fname in ("BoundedFrameFlow", "FlatTriplesFrameFlow" if cls == "triple"
+                          else "FlatQuadsFrameFlow", "ManualFrameFlow"):
+                cases[f"{api}-flow-object-{fname}-{cls}"] = flow_object(api, fname, cls)
+    return cases
+
+
+def reuse_case(name: str) -> list[str]:
+    try:
+        outs = reuse_cases()[name]()
+    except Exception as e:  # noqa: BLE001
+        return [] if not isinstance(e, (NameError, AttributeError, ImportError)) else [
+            f"harness: {e!r}"]
+    bad = [i for i, o in enumerate(outs) if o != outs[0]]
+    if bad:
+        return [f"{name}: use {bad[0] + 1} of the same object wrote {len(outs[bad[0]])} bytes, "
+                f"the first use {len(outs[0])} bytes (same input)"]
+    return []
+
+
+def reuse_shard(job) -> dict:
+    acc = pool.Acc()
+    for name in sorted(reuse_cases()):
+        acc.evals += 1
+        acc.nontrivial += 1
+        for msg in reuse_case(name):
+            if msg.startswith("harness"):
+                raise env.HarnessError(msg)
+            acc.violation({"part": "reuse", "object": name.split("-")[1]}, msg,
+                          {"part": "reuse", "name": name})
+    return acc.out()
+
+
 def _dispatch(job) -> dict:
-    return {"i": interleave_shard, "t": thread_shard, "h": history_shard}[job[0]](job[1])
+    return {"i": interleave_shard, "t": thread_shard, "h": history_shard,
+            "r": reuse_shard}[job[0]](job[1])
 
 
 def run(ctx) -> None:
@@ -891,6 +994,7 @@ def run(ctx) -> None:
     depth = 2 if ctx.quick else 3
     total = sum(nh**k for k in range(1, depth + 1))
     jobs += [("h", (depth, lo, hi, fresh)) for lo, hi in pool.split_range(total, 16)]
+    jobs.append(("r", ()))
     merged = pool.merge(pool.pmap(_dispatch, jobs))
     ctx.add(merged)
     inter = sum(e.get("interleaved", 0) for e in merged["extras"])
@@ -929,6 +1033,8 @@ def replay(case: dict) -> list:
         return interleave_case(case)
     if case["part"] == "threads":
         return thread_case(case)
+    if case["part"] == "reuse":
+        return reuse_case(case["name"])
     if case["part"] == "isolated":
         k = case["probe"]
         return [] if fresh_digests("0", k).get(k) == fresh_digests("0")[k] else [
